@@ -209,6 +209,21 @@ func idSweep(full bool, f func(m model.Message) bool) {
 			return
 		}
 	}
+	// certificate requests listing trust anchors (20-octet hashes), some of them more than once
+	{
+		a, b, c := pat(20, 0x11), pat(20, 0x22), pat(20, 0x33)
+		for i, order := range [][]model.Bytes{{a, b, a, c}, {a, a}, {a, b, b}, {a, b, c, a}, {c, c, c, a}} {
+			var data model.Bytes
+			for _, h := range order {
+				data = append(data, h...)
+			}
+			for _, enc := range []uint8{4, 12} {
+				if !emit(i, model.Payload{Kind: model.KCERTREQ, Cert: &model.Cert{Encoding: enc, Data: data}}) {
+					return
+				}
+			}
+		}
+	}
 	// DH public values an RFC 6989-minded validator looks at: 0, 1, p-1, p, p+1 in the full width of the group
 	for g, grp := range []uint16{2, 14} {
 		P := ref.ModpPrime(ref.DHs[g].Bits)
